@@ -306,7 +306,7 @@ func c14B1t8(c *Ctx) {
 			for _, e := range src.A.Elems {
 				e.(*bitdom.BV).Signed = true
 			}
-			dst := bitdom.ConstSlice(make([]uint64, n), 8)
+			dst := in.SymSlice("junk", n, 8, 8, false) // destination pre-filled with symbolic junk: every byte must be assigned, not OR-ed into
 			ex, err := in.Call(dec, []bitdom.Val{dst, src})
 			if err != nil || ex.Panic {
 				note("Decode n=%d rem=%d: %v", n, rem, err)
